@@ -8,6 +8,29 @@ use flacenc::config;
 use flacenc::error::Verify;
 use flacenc::source::MemSource;
 
+/// A source whose length hint does not match what it delivers (a file cut short, a stale header).
+struct HintSource {
+    inner: MemSource,
+    hint: usize,
+}
+impl flacenc::source::Source for HintSource {
+    fn channels(&self) -> usize {
+        self.inner.channels()
+    }
+    fn bits_per_sample(&self) -> usize {
+        self.inner.bits_per_sample()
+    }
+    fn sample_rate(&self) -> usize {
+        self.inner.sample_rate()
+    }
+    fn read_samples<F: flacenc::source::Fill>(&mut self, block_size: usize, dest: &mut F) -> Result<usize, flacenc::error::SourceError> {
+        self.inner.read_samples(block_size, dest)
+    }
+    fn len_hint(&self) -> Option<usize> {
+        Some(self.hint)
+    }
+}
+
 struct Lcg(u64);
 impl Lcg {
     fn next(&mut self) -> u64 {
@@ -127,6 +150,37 @@ fn main() {
             let src = MemSource::from_samples(&x, ch, bps, 44100);
             let out = match cfg.into_verified() {
                 Ok(v) => match flacenc::encode_with_fixed_block_size(&v, src, arg_bs) {
+                    Ok(s) => {
+                        let mut sink = ByteSink::new();
+                        match s.write(&mut sink) {
+                            Ok(()) => sink.as_slice().to_vec(),
+                            Err(_) => b"write error".to_vec(),
+                        }
+                    }
+                    Err(e) => format!("encode error: {e}").into_bytes(),
+                },
+                Err((_, e)) => format!("config error: {e}").into_bytes(),
+            };
+            println!(
+                "{{\"ev\":\"out\",\"build\":\"{build}\",\"case\":{id},\"digest\":\"{}\",\"len\":{},\"mt\":false,\"bytes\":[]}}",
+                fnv(&out),
+                out.len()
+            );
+            id += 1;
+        }
+    }
+    // sources whose length hint over- or under-reports what they deliver, default configuration
+    {
+        let mut id = 500_000usize;
+        for (ch, bps, bs, n, hint) in [(2usize, 16usize, 64usize, 500usize, 600usize), (1, 8, 32, 100, 99), (2, 24, 256, 1000, 5000), (3, 12, 96, 300, 0), (2, 16, 4096, 5000, 6000)] {
+            let mut r = Lcg(0x417e_0000 + id as u64);
+            let hi = (1i64 << (bps - 1)) - 1;
+            let x: Vec<i32> = (0..n * ch).map(|t| (((t / ch) as f64 * 0.07).sin() * hi as f64 * 0.4) as i32 + (r.next() % 5) as i32 - 2).collect();
+            let mut cfg = config::Encoder::default();
+            cfg.block_size = bs;
+            let src = HintSource { inner: MemSource::from_samples(&x, ch, bps, 44100), hint };
+            let out = match cfg.into_verified() {
+                Ok(v) => match flacenc::encode_with_fixed_block_size(&v, src, bs) {
                     Ok(s) => {
                         let mut sink = ByteSink::new();
                         match s.write(&mut sink) {
